@@ -143,7 +143,20 @@ fn observe_policy(step: usize, total: usize, count: usize, prev_len: usize, new_
 }
 
 /// Execute one program and judge every observed prefix for property `prop`.
+/// Input no property promises to be accepted: strings with NUL or non-ASCII characters (C03 quantifies
+/// strings over their lengths only), matrices with a zero dimension.
+fn op_is_fringe(op: &Op) -> bool {
+    let odd = |s: &str| !s.is_ascii() || s.contains('\0');
+    match op {
+        Op::Isa { s } => odd(s),
+        Op::Platform { name, .. } => odd(name),
+        Op::Sllbi { ni, nt, .. } => *ni == 0 || *nt == 0,
+        _ => false,
+    }
+}
+
 pub fn run_prog(cx: &mut CaseCtx, p: &Prog, stride: usize) {
+    cx.fringe = p.ops.iter().any(op_is_fringe);
     let prop = cx.cfg.prop.clone();
     let f10 = cx.cfg.is_known("F10");
     let want_raw = prop == "C14";
